@@ -20,7 +20,7 @@ RULE = ("(encoder level, exhaustive) for eco-mode v1 and v2 groups x every prior
 ASSUMPTIONS = ["v1 groups carry no SoC and encode_discharge takes none: SoC is asserted for v2 ECO_CHARGE only",
                "a limit whose encoding is the all-ones 'no value' sentinel (65535) is outside the readable domain",
                "a setter that raises (e.g. ES with undecodable prior eco registers) has not 'succeeded': nothing is asserted then"]
-MUST = ["same_mode_repeated", "setter_with_refused_write", "polls_between_setters", "encoder_roundtrips", "mode_roundtrips", "eco_charge_checked", "eco_discharge_checked", "groups_off_checked",
+MUST = ["background_poller_during_setters", "same_mode_repeated", "setter_with_refused_write", "polls_between_setters", "encoder_roundtrips", "mode_roundtrips", "eco_charge_checked", "eco_discharge_checked", "groups_off_checked",
         "export_limit_roundtrips", "dod_roundtrips", "prior_nonempty_types", "es_modes", "et_745", "et_v1"]
 EXHAUSTIVE = {"quick": False, "thorough": False}
 
@@ -166,6 +166,23 @@ def e2e_part(spec, part):
             await inv.read_device_info()
             modes = list(await inv.get_operation_modes(True))
             rnd.shuffle(modes)
+            # a monitoring task that keeps reading group 1 and the runtime data WHILE the setters run (an integration polling in the background)
+            bg = {"stop": False, "task": None}
+            if rnd.random() < 0.3:
+                import asyncio
+                sim.delay = 0.02
+
+                async def poller():
+                    k = 0
+                    while not bg["stop"]:
+                        k += 1
+                        try:
+                            await (inv.read_setting("eco_mode_1") if k % 3 else inv.read_runtime_data())
+                        except Exception:       # noqa
+                            pass
+                        await asyncio.sleep(0.013)
+                bg["task"] = loop.create_task(poller())
+                part.count("background_poller_during_setters")
             polls = rnd.random() < 0.6          # monitoring polls run between the setter calls, as in an integration
             if polls:
                 await inv.read_runtime_data()
@@ -302,6 +319,9 @@ def e2e_part(spec, part):
                 part.count("dod_roundtrips")
                 if got != d:
                     part.violate(f"C19/{fam}/dod-roundtrip", f"{tagtxt}: set_ongrid_battery_dod({d}) then get = {got}", case)
+            bg["stop"] = True
+            if bg["task"] is not None:
+                await bg["task"]
 
         run = engine.run_custom({("inv0", port): sim}, flow, vtime_cap=20000, tx_cap=50000)
         if run.stop or run.error is not None:
